@@ -53,6 +53,8 @@ proof fn lemma_fidx<T>(ks: Seq<Option<T>>, st: Seq<u16>, k: T, p: int)
     if i != p { assert(ks[i] != ks[p]); }
 }
 
+pub assume_specification [ usize::is_power_of_two ] (n: usize) -> (r: bool) ensures r == exists|j: nat| j < 64 && n == pow2(j);
+pub assume_specification [ usize::trailing_zeros ] (n: usize) -> (r: u32) ensures forall|j: nat| j < 64 && n == pow2(j) ==> r == j;
 // ================= finite sums over a set (this unit) =================
 spec fn ssum<A>(s: Set<A>, f: spec_fn(A) -> nat) -> nat decreases s.len() {
     if s.len() == 0 { 0 } else { let x = s.choose(); f(x) + ssum(s.remove(x), f) }
@@ -135,8 +137,8 @@ impl<T> ReversePurgeItemHashMap<T> {
 }
 
 impl<T: Eq + Hash> ReversePurgeItemHashMap<T> {
-    // ---- opaque: contracts proved in unit fi_map (same text), plus the clauses marked [+] ----
-    // [+] not in fi_map (float leaf `(map_size as f64 * LOAD_FACTOR) as usize`, R13 `None` vector): an empty table of the given power-of-two size
+    // ---- opaque: every clause below is PROVED in unit fi_map (same text) except the two marked [R17] ----
+    // proved in fi_map (`new`): an empty table of the given power-of-two size
     #[verifier::external_body]
     fn new(map_size: usize) -> (r: Self)
       requires exists|lg: u8| 1 <= lg <= 40 && map_size == pow2(lg as nat),
@@ -157,7 +159,7 @@ impl<T: Eq + Hash> ReversePurgeItemHashMap<T> {
         forall|k2: T| final(self).val(k2) == (if k2 == key { (old(self).val(key) + adjust_amount) as u64 } else { old(self).val(k2) }),
         forall|k2: T| fholds(final(self).keys@, final(self).states@, k2) == (fholds(old(self).keys@, old(self).states@, k2) || k2 == key),
         final(self).num_active == old(self).num_active + (if fholds(old(self).keys@, old(self).states@, key) { 0usize } else { 1usize }),
-        // [+] R17 hash quality: probe runs stay shorter than DRIFT_LIMIT
+        // [R17] hash quality, NOT provable (assumption): probe runs stay shorter than DRIFT_LIMIT
         runs_short(old(self).states@) ==> runs_short(final(self).states@),
     { unimplemented!() }
 
@@ -169,7 +171,7 @@ impl<T: Eq + Hash> ReversePurgeItemHashMap<T> {
         forall|k: T| final(self).val(k) == (if old(self).val(k) > median { (old(self).val(k) - median) as u64 } else { 0u64 }),
         forall|k: T| fholds(final(self).keys@, final(self).states@, k) == (old(self).val(k) > median),
         final(self).num_active < old(self).num_active,
-        // [+] the median is one of the sampled counters
+        // the median is one of the sampled counters (fi_map C07.purge.median_is_counter)
         exists|k: T| fholds(old(self).keys@, old(self).states@, k) && #[trigger] old(self).val(k) >= median,
     { unimplemented!() }
 
@@ -180,9 +182,9 @@ impl<T: Eq + Hash> ReversePurgeItemHashMap<T> {
         final(self).num_active == old(self).num_active,
         forall|k: T| final(self).val(k) == old(self).val(k),
         forall|k: T| fholds(final(self).keys@, final(self).states@, k) == fholds(old(self).keys@, old(self).states@, k),
-        // [+] (new_size as f64 * LOAD_FACTOR) as usize
+        // (new_size as f64 * LOAD_FACTOR) as usize (fi_map resize, via the vx_load_threshold float leaf)
         final(self).load_threshold == new_size * 3 / 4,
-        // [+] R17 hash quality
+        // [R17] hash quality, NOT provable (assumption)
         runs_short(old(self).states@) ==> runs_short(final(self).states@),
     { unimplemented!() }
 
@@ -339,6 +341,70 @@ Self {
 lg_max_map_size : lg_max , cur_map_cap , offset : 0 , stream_weight : 0 , sample_size , hash_map : map , }
 }
 
+
+    fn new(max_map_size: usize) -> (r: Self)
+      requires eq_law::<T>(),
+        // documented panic: not a power of two; and the range in which `(1 << lg) * 3` cannot overflow / the map is specified
+        exists|lg: u8| lg <= 40 && max_map_size == pow2(lg as nat),
+      ensures r.wf(), max_map_size == pow2(r.lg_max_map_size as nat) || r.lg_max_map_size == LG_MIN_MAP_SIZE,
+        /*@C07.empty_model*/ r.models(Seq::<(T, u64)>::empty()),
+    {
+        let ghost lg = choose|lg: u8| lg <= 40 && max_map_size == pow2(lg as nat);
+        assert!(max_map_size.is_power_of_two());
+        let lg_max_map_size = max_map_size.trailing_zeros() as u8;
+        Self::with_lg_map_sizes(lg_max_map_size, LG_MIN_MAP_SIZE)
+    }
+
+    fn current_map_capacity(&self) -> (r: usize)
+      ensures r == self.cur_map_cap,
+    {
+        self.cur_map_cap
+    }
+
+    fn lg_max_map_size(&self) -> (r: u8)
+      ensures r == self.lg_max_map_size,
+    {
+        self.lg_max_map_size
+    }
+
+    fn lg_cur_map_size(&self) -> (r: u8)
+      ensures r == self.hash_map.lg_length,
+    {
+        self.hash_map.lg_length()
+    }
+
+    fn update(&mut self, item: T)
+      requires old(self).wf(), old(self).stream_weight + 1 <= u64::MAX,
+      ensures final(self).wf(),
+        /*@C07.update*/ forall|h: Seq<(T, u64)>| #[trigger] old(self).models(h) ==> final(self).models(h.push((item, 1u64))),
+        /*@C07.update_total*/ final(self).stream_weight == old(self).stream_weight + 1,
+        /*@C18.fi_capacity*/ final(self).hash_map.num_active <= cap_of(final(self).lg_max_map_size),
+        final(self).lg_max_map_size == old(self).lg_max_map_size,
+    {
+        self.update_with_count(item, 1);
+    }
+
+    fn reset(&mut self)
+      requires old(self).wf(),
+      ensures final(self).wf(), final(self).lg_max_map_size == old(self).lg_max_map_size,
+        /*@C07.empty_model*/ final(self).models(Seq::<(T, u64)>::empty()),
+        /*@C18.fi_capacity*/ final(self).hash_map.num_active <= cap_of(final(self).lg_max_map_size),
+    {
+        *self = Self::with_lg_map_sizes(self.lg_max_map_size, LG_MIN_MAP_SIZE);
+    }
+
+    fn frequent_items(&self, error_type: ErrorType) -> (rows: Vec<Row<T>>)
+      where T: Clone,
+      requires self.wf(),
+      ensures
+        /*@C07.rows_bounds*/ forall|i: int| 0 <= i < rows@.len() ==> #[trigger] self.row_ok(error_type, self.offset, rows@[i]),
+        /*@C07.rows_complete*/ forall|x: T| #[trigger] self.selected(error_type, self.offset, x) ==> exists|i: int| 0 <= i < rows@.len() && #[trigger] rows@[i].item == x,
+        /*@C07.nfp*/ error_type is NoFalsePositives ==> forall|h: Seq<(T, u64)>, i: int| #[trigger] self.models(h) && 0 <= i < rows@.len() ==> truth(h, #[trigger] rows@[i].item) > self.offset,
+        /*@C07.nfn*/ error_type is NoFalseNegatives ==> forall|h: Seq<(T, u64)>, x: T| #[trigger] self.models(h) && #[trigger] truth(h, x) > self.offset ==> exists|i: int| 0 <= i < rows@.len() && #[trigger] rows@[i].item == x,
+    {
+        proof { assert(self.thr(self.offset) == self.offset); }
+        self.frequent_items_with_threshold(error_type, self.offset)
+    }
 
     fn is_empty ( & self ) -> ( r : bool ) ensures r == ( self . hash_map . num_active == 0 ) , {
 self . hash_map . num_active ( ) == 0 }
